@@ -159,8 +159,17 @@ pub fn gen_c11(rng: &mut Rng, tier: Tier) -> Result<Value, serde_json::Error> {
         IssueCall { claims, strat, holder_key: if rng.bool() { Some(msg_gen::holder_key(rng)) } else { None }, decoys: rng.bool(), fmt: rand_fmt(rng) }
     };
     if rng.bool() {
-        let mut calls = Vec::new();
+        let mut calls: Vec<IssueCall> = Vec::new();
         for _ in 0..n {
+            // a refresh / re-issuance: the claims of an earlier call again (maybe another format)
+            if !calls.is_empty() && rng.chance(1, 5) {
+                let mut again: IssueCall = rng.pick(&calls).clone();
+                if rng.bool() {
+                    again.fmt = again.fmt.other();
+                }
+                calls.push(again);
+                continue;
+            }
             calls.push(if rng.chance(1, 5) {
                 failing_issue_call(rng, now)
             } else if rng.chance(1, 12) {
@@ -668,6 +677,10 @@ pub struct RelayScn {
     /// the relay's thread has loaded the SD-JWT as issued before (a wallet that also holds it)
     #[serde(default)]
     pub relay_saw_original: bool,
+    /// the relay's holder object is built on one thread and asked for its presentation on another
+    /// (a wallet that parses on an I/O thread and presents from a UI thread)
+    #[serde(default)]
+    pub cross_thread: bool,
 }
 
 pub fn gen_c15(rng: &mut Rng, _tier: Tier) -> Result<Value, serde_json::Error> {
@@ -735,7 +748,7 @@ pub fn gen_c15(rng: &mut Rng, _tier: Tier) -> Result<Value, serde_json::Error> {
     let other_traffic: Vec<bool> = selections.iter().map(|_| rng.chance(1, 3)).collect();
     let repeat_earlier: Vec<Option<usize>> = (0..selections.len()).map(|j| if j >= 1 && rng.chance(1, 2) { Some(rng.usize(j)) } else { None }).collect();
     let rejected_first: Vec<bool> = selections.iter().map(|_| rng.chance(1, 4)).collect();
-    serde_json::to_value(RelayScn { kind: "relay".into(), check: "C15".into(), entropy_seed: rng.next_u64(), clock_base: now, key, alg, cred, selections, fmts, warmups, other_traffic, repeat_earlier, rejected_first, unsorted_sd: if rng.chance(1, 5) { Some(rng.next_u64()) } else { None }, relay_saw_original: rng.chance(1, 4) })
+    serde_json::to_value(RelayScn { kind: "relay".into(), check: "C15".into(), entropy_seed: rng.next_u64(), clock_base: now, key, alg, cred, selections, fmts, warmups, other_traffic, repeat_earlier, rejected_first, unsorted_sd: if rng.chance(1, 5) { Some(rng.next_u64()) } else { None }, relay_saw_original: rng.chance(1, 4), cross_thread: rng.chance(1, 4) })
 }
 
 pub fn execute_c15(scn_v: &Value) -> RunReport {
@@ -824,7 +837,12 @@ pub fn execute_c15(scn_v: &Value) -> RunReport {
                     let _ = w.present(n_hr, &h, wsel, None);
                     cx.rep.count("fault.holder_object_reused_within_hop");
                 }
-                w.present(n_hr, &h, sel, None)
+                if scn.cross_thread {
+                    cx.rep.count("fault.holder_used_on_another_thread_than_it_was_built_on");
+                    w.present(n_i, &h, sel, None)
+                } else {
+                    w.present(n_hr, &h, sel, None)
+                }
             }
             Out::Err { variant, msg } => Out::Err { variant, msg },
             Out::Panic(p) => Out::Panic(p),
